@@ -1294,3 +1294,91 @@ pub fn type_from_scratch(rng: &mut Rng, program: &str, max_steps: usize) -> Vec<
     }
     out
 }
+
+/// The single replacement an editor sends for an undo/redo or a revert: the smallest range of
+/// `from` whose replacement yields `to` (common prefix and suffix kept, on character boundaries).
+pub fn diff_edit(from: &str, to: &str) -> (std::ops::Range<usize>, String) {
+    let (a, b) = (from.as_bytes(), to.as_bytes());
+    let mut p = 0;
+    while p < a.len() && p < b.len() && a[p] == b[p] {
+        p += 1;
+    }
+    while !from.is_char_boundary(p) || !to.is_char_boundary(p) {
+        p -= 1;
+    }
+    let mut q = 0;
+    while q < a.len() - p && q < b.len() - p && a[a.len() - 1 - q] == b[b.len() - 1 - q] {
+        q += 1;
+    }
+    while !from.is_char_boundary(a.len() - q) || !to.is_char_boundary(b.len() - q) {
+        q -= 1;
+    }
+    (p..a.len() - q, to[p..b.len() - q].to_string())
+}
+
+/// Steps in the life of a document that carry state across more than one notification: closed and
+/// opened again (same, earlier or new text), emptied and filled again, undone to an earlier text
+/// and redone. `hist` holds earlier texts of this document. Returns the number of notifications.
+pub fn lifecycle_steps(rng: &mut Rng, s: &mut crate::h::session::Session, uri: &str, hist: &[String]) -> usize {
+    let t = s.text(uri).cloned().unwrap_or_default();
+    match rng.below(5) {
+        0 => {
+            s.close(uri);
+            let nt = match rng.below(3) {
+                0 => t.clone(),
+                1 if !hist.is_empty() => rng.pick(hist).clone(),
+                _ => document(rng, DocKind::Valid),
+            };
+            s.open(uri, &nt);
+            1
+        }
+        1 => {
+            let e = to_lsp_edit(&t, 0..t.len(), String::new());
+            s.change(uri, vec![e]);
+            if rng.chance(400) {
+                let m = *rng.pick(&["textDocument/hover", "textDocument/completion", "textDocument/foldingRange", "textDocument/semanticTokens/full", "textDocument/formatting"]);
+                s.request(m, uri, 0, 0);
+            }
+            let nt = match rng.below(3) {
+                0 => t.clone(),
+                1 if !hist.is_empty() => rng.pick(hist).clone(),
+                _ => document(rng, DocKind::Valid),
+            };
+            s.change(uri, vec![to_lsp_edit("", 0..0, nt)]);
+            2
+        }
+        _ => {
+            if hist.is_empty() {
+                return 0;
+            }
+            // undo to one of the last few texts, step by step or at once; perhaps redo
+            let back = rng.range(1, 4).min(hist.len());
+            let chain: Vec<String> = hist[hist.len() - back..].iter().rev().cloned().collect();
+            let mut cur = t.clone();
+            let mut n = 0;
+            if rng.chance(500) {
+                for old in &chain {
+                    if *old != cur {
+                        let (r, repl) = diff_edit(&cur, old);
+                        s.change(uri, vec![to_lsp_edit(&cur, r, repl)]);
+                        cur = old.clone();
+                        n += 1;
+                    }
+                }
+            } else if let Some(old) = chain.last() {
+                if *old != cur {
+                    let (r, repl) = diff_edit(&cur, old);
+                    s.change(uri, vec![to_lsp_edit(&cur, r, repl)]);
+                    cur = old.clone();
+                    n += 1;
+                }
+            }
+            if rng.chance(500) && cur != t {
+                let (r, repl) = diff_edit(&cur, &t);
+                s.change(uri, vec![to_lsp_edit(&cur, r, repl)]);
+                n += 1;
+            }
+            n
+        }
+    }
+}
